@@ -41,6 +41,11 @@ def c06(ctx, replay):
         "memory safety is observed through guard words around the backing slice and a sentinel in dead slots, not proved",
     ]
     rej, _ = pipeline(ctx, replay)
+    if ctx.tier == "thorough" and not replay:
+        from props.stream import apalache
+        apalache(ctx, "RingIdxAbs")       # index arithmetic for ANY capacity, unbounded histories
+        ctx.assumptions.append("Apalache inductive invariant of RingIdxAbs: slot arithmetic of Bounded/Fixed for any capacity and history length "
+                               "(one arbitrary element followed symbolically; set_first not part of the abstraction)")
     ctx.add_rejections(rej)
 
 
